@@ -96,9 +96,20 @@ class C06(Property):
                "correspondence and re-checked here on every region through the executable component spec"]
 
     # ------------------------------------------------------------------ generators
-    def rand_area(self, rng: random.Random, n: int, circ: bool, grid: int = 1, full: float = 0.03) -> Dict[str, Any]:
+    def rand_area(self, rng: random.Random, n: int, circ: bool, grid: int = 1, full: float = 0.03,
+                  small: bool = False) -> Dict[str, Any]:
         pts = n // grid
         r = rng.random()
+        if small:
+            # short spans (a tenth of the record at most): components stay below half of a ring
+            cap = max(1, pts // 10)
+            width = rng.randrange(1, cap + 1) * grid
+            if circ and r < 0.25 and pts >= 4:
+                y = rng.randrange(1, cap + 1) * grid
+                x = n - rng.randrange(1, cap + 1) * grid
+                return crossing(x, n, y) if y <= x else simple(0, width)
+            lo = rng.randrange(0, pts) * grid
+            return simple(lo, min(n, lo + width))
         if r < full:
             return simple(0, n)
         if circ and r < 0.3 and pts >= 2:
@@ -152,8 +163,31 @@ class C06(Property):
             locs.append(simple(y + 1, max(y + 2, x - 5)) if rng.random() < 0.3 else self.rand_area(rng, n, circ, grid))
             locs = [l for l in locs if l["c"] or l["parts"][0][0] < l["parts"][0][1]]
             rng.shuffle(locs)
+        elif special > 0.85:
+            # dense protoclusters with long, mutually overlapping cores: several interleaved candidates whose
+            # union is formed again as a neighbouring group (D26: the redundant candidate is dropped)
+            k = rng.choice([3, 4, 4, 5])
+            for _ in range(k):
+                lo = rng.randrange(0, max(1, n // 2))
+                hi = rng.randrange(min(n - 1, lo + n // 3), n) + 1
+                loc = simple(lo, min(n, hi)) if lo < min(n, hi) else simple(0, n)
+                if circ and rng.random() < 0.25:
+                    x = rng.randrange(1, n)
+                    loc = crossing(x, n, rng.randrange(1, x + 1))
+                a, b = (loc["parts"][0][0], loc["parts"][0][1])
+                c1 = rng.randrange(a, b)
+                c2 = rng.randrange(c1 + 1, b + 1)
+                ops.append(["addProto", loc, simple(c1, c2)])
+            ops.append(["createCands"])
+            ops.append(["createRegions"])
+            if rng.random() < 0.5:
+                ops.append([rng.choice(CLEARS)])
+            return {"len": n, "circ": circ, "cds": [], "ops": ops}
         else:
-            locs = [self.rand_area(rng, n, circ, grid) for _ in range(k)]
+            small = circ and rng.random() < 0.6
+            if small and n < 50:
+                n, grid = rng.choice([(100, 1), (100, 5), (1000, 10), (100000, 1000)])
+            locs = [self.rand_area(rng, n, circ, grid, small=small) for _ in range(k + (2 if small else 0))]
         for loc in locs:
             if rng.random() < 0.5:
                 ops.append(["addSub", loc])
@@ -232,8 +266,12 @@ class C06(Property):
         cross = [crossing(x, n, y) for x in pts[1:-1] for y in pts[1:] if y <= x]
         for circ in (False, True):
             locs = sims + (cross if circ else [])
-            for k in (1, 2, 3):
-                combos = list(itertools.combinations_with_replacement(range(len(locs)), k))
+            for k in (1, 2, 3, 4):
+                if k == 4:
+                    # four areas: sampled (exhaustive would be ~10^5 per topology)
+                    combos = [tuple(sorted(rng.randrange(len(locs)) for _ in range(4))) for _ in range(6000 if full else 150)]
+                else:
+                    combos = list(itertools.combinations_with_replacement(range(len(locs)), k))
                 if not full and len(combos) > 600:
                     combos = rng.sample(combos, 600)
                 for combo in combos:
@@ -245,8 +283,12 @@ class C06(Property):
                                  ["createCands"], ["createRegions"], ["clearProtos"], ["clearCands"], ["clearSubs"],
                                  ["clearRegions"], ["addRegion", [0], [0]]]
         depth = 4 if full else 3
-        for length in range(1, depth + 1):
-            orders = list(itertools.product(range(len(pool)), repeat=length))
+        for length in range(1, depth + 2):
+            if length == depth + 1:
+                # one op longer: sampled
+                orders = [tuple(rng.randrange(len(pool)) for _ in range(length)) for _ in range(10000 if full else 300)]
+            else:
+                orders = list(itertools.product(range(len(pool)), repeat=length))
             if not full and len(orders) > 800:
                 orders = rng.sample(orders, 800)
             for order in orders:
@@ -275,6 +317,7 @@ class C06(Property):
     def run_impl(self, case: Dict[str, Any]) -> Dict[str, Any]:
         from antismash.common.secmet.features import CandidateCluster, Protocluster, Region, SubRegion
         from antismash.common.secmet.features.candidate_cluster import structures as cand_structures
+        from antismash.common.secmet.features.cdscollection import CDSCollection
         from antismash.common.secmet.record import Record
         from antismash.common.secmet.test.helpers import DummyCDS, DummyRecord
 
@@ -366,6 +409,13 @@ class C06(Property):
                     elif kind == "createCands":
                         orig_init = cand_structures.CandidateCluster.__init__
                         orig_add = Record.add_candidate_cluster
+                        orig_parent = CDSCollection.parent
+
+                        def logged_parent(self: Any, parent: Any) -> None:
+                            # assignments outside a constructor (the new object is registered only after __init__)
+                            if parent is not None and id(parent) in ids.ids and id(self) in ids.ids:
+                                prim.append(["reparent", [ids.get(self)], ids.get(parent)])
+                            orig_parent.fset(self, parent)
 
                         def logged_init(self: Any, kind_: Any, protoclusters: Any, *args: Any, **kwargs: Any) -> None:
                             # the construction is logged first: the parent links are set even if a later check fails
@@ -379,11 +429,13 @@ class C06(Property):
 
                         cand_structures.CandidateCluster.__init__ = logged_init  # type: ignore
                         Record.add_candidate_cluster = logged_add  # type: ignore
+                        CDSCollection.parent = property(orig_parent.fget, logged_parent)  # type: ignore
                         try:
                             rec.create_candidate_clusters()
                         finally:
                             cand_structures.CandidateCluster.__init__ = orig_init  # type: ignore
                             Record.add_candidate_cluster = orig_add  # type: ignore
+                            CDSCollection.parent = orig_parent  # type: ignore
                     elif kind == "addRegion":
                         cs = pick(rec.get_candidate_clusters(), op[1])
                         ss = pick(rec.get_subregions(), op[2])
